@@ -96,6 +96,11 @@ class Outcome:
         )
         self.pragma_errors = [(e.file_path, e.line_number, e.pragma_error) for e in p.pragma_errors] if p else []
         self.fixed = list(p.files_fixed) if p else []
+        # a failure of the environment (disk full, descriptor or memory exhaustion) says nothing about the tree
+        # under test: such a run is inconclusive, exactly like one stopped by the CPU watchdog
+        et = "".join(self.err)
+        if any(x in et for x in ("No space left on device", "[Errno 28]", "Too many open files", "[Errno 24]", "Cannot allocate memory", "[Errno 12]", "MemoryError")):
+            self.watchdog = True
 
     @property
     def errtext(self):
@@ -125,6 +130,7 @@ def invoke(args, string=None, cpu_s=10.0):
     p = _ApiPresentation()
     m = PyMarkdownLint(presentation=p, string_to_scan=string)
     rc = 0
+    snap = _log_snapshot()
     try:
         with pm.cpu_limit(cpu_s):
             m.main(list(args))
@@ -132,7 +138,36 @@ def invoke(args, string=None, cpu_s=10.0):
         rc = e.code if isinstance(e.code, int) else (0 if e.code is None else 99)
     except pm.CpuWatchdog:
         return Outcome(None, p, watchdog=True)
+    finally:
+        _log_restore(snap)
     return Outcome(rc, p)
+
+
+def _log_snapshot():
+    import logging
+
+    root = logging.getLogger()
+    return list(root.handlers), root.level
+
+
+def _log_restore(snap):
+    """The application registers its log handlers on the root logger and never removes them (harmless in a
+    process that exits, which is how it is used).  This harness runs thousands of invocations in one process:
+    a handler left behind by `--log-file` re-opens its file on every later record, so the workers of the
+    thorough C16 run once wrote > 100 GB into deleted files.  After each invocation the handlers it added are
+    removed and closed and the level is put back, which is also what a fresh process would start from."""
+    import logging
+
+    before, level = snap
+    root = logging.getLogger()
+    for h in list(root.handlers):
+        if h not in before:
+            root.removeHandler(h)
+            try:
+                h.close()
+            except Exception:  # noqa: BLE001
+                pass
+    root.setLevel(level)
 
 
 class ApiWatchdog(Exception):
@@ -141,11 +176,14 @@ class ApiWatchdog(Exception):
 
 def guarded(fn, cpu_s=20.0):
     """Run fn() (a PyMarkdownApi call) under the same CPU-time watchdog as invoke()."""
+    snap = _log_snapshot()
     try:
         with pm.cpu_limit(cpu_s):
             return fn()
     except pm.CpuWatchdog:
         raise ApiWatchdog() from None
+    finally:
+        _log_restore(snap)
 
 
 def rule_args(only=None, disable=None, enable=None):
